@@ -25,6 +25,12 @@ scoped behaviour:
   enter     'no' | 'may' | 'must' : whether entering raises (documented
             argument validation = 'must'; undocumented combination = 'may')
 
+`USES` lists, per manager, the documented public uses of the object bound by
+`with ... as y` that a program may make anywhere inside the block (methods and
+properties of `TimeIt`, reading the yielded mapping / collection / error
+context).  None of them is documented to change a scoped setting, so the model
+state is the same before and after a use.
+
 `OBSERVERS` are the observation points: for every setting a public getter AND
 a behavioural probe, each with `expect(state, env)` computed from the model
 state of *all* settings (e.g. a write probe is rejected under
@@ -226,6 +232,7 @@ class Env:
     self.html_d = pg.Dict(a=dict(b=1))
     self.n = 0
     self.timeits = []                 # TimeIt objects this thread is inside of
+    self.left_timeits = []            # TimeIt objects of blocks this thread has left
     self.exit_token = None
     self.exit_exc = None
     self.foreign_process_de = False   # another thread uses dynamic_evaluate(per_thread=False)
@@ -687,6 +694,49 @@ def _canon_map(m):
 
 
 # ---------------------------------------------------------------------------
+# Documented uses of the yielded object inside its block.
+# ---------------------------------------------------------------------------
+class Use:
+  """One public use of the object `y` bound by `with <manager> as y`.
+
+  apply(y, env) drives public methods / properties only and returns nothing;
+  the documented effect of every listed use is confined to `y` itself."""
+
+  def __init__(self, name, apply):
+    self.name, self.apply = name, apply
+
+
+USES = {}
+
+
+def _use(mgr, name, apply):
+  USES.setdefault(mgr, []).append(Use(name, apply))
+
+
+def _timeit_read(y, env):
+  return (y.name, y.elapse, y.has_started, y.has_ended, y.has_error, y.error,
+          y.start_time, y.end_time, len(y.children))
+
+
+# pg.timeit yields the TimeIt object: all of its public methods.
+_use('timeit', 'end', lambda y, env: y.end())
+_use('timeit', 'end-with-error', lambda y, env: y.end(E1('boom-1')))
+_use('timeit', 'start', lambda y, env: y.start())
+_use('timeit', 'add', lambda y, env: y.add(pg.timeit('c17-added')))
+_use('timeit', 'status', lambda y, env: y.status())
+_use('timeit', 'read', _timeit_read)
+# pg.catch_errors yields the context whose `error` is read by the caller.
+_use('catch_errors', 'read', lambda y, env: y.error)
+# Managers yielding the current mapping / collection of the setting: read it
+# (through the same public accessors as `canon_yield`).
+for _m in ('contextual_override', 'ContextualObject.override', 'str_format',
+           'repr_format', 'thread_local_arg_scope', 'view_options',
+           'coding.context', 'coding.permission', 'detour', 'apply_wrappers',
+           'preset_args', 'load_types_for_deserialization'):
+  _use(_m, 'read', (lambda m: lambda y, env: canon_yield(m, y))(_m))
+
+
+# ---------------------------------------------------------------------------
 # Observers.
 # ---------------------------------------------------------------------------
 class Observer:
@@ -1102,6 +1152,10 @@ def _timeit_probe(env):
   for i in range(len(env.timeits) - 1, -1, -1):
     if any(c is p for c in env.timeits[i].children):
       return i
+  # a scope that has been left must not adopt later scopes (`children` is public)
+  for t in env.left_timeits:
+    if any(c is p for c in t.children):
+      return 'child-of-left-scope'
   return None
 
 
